@@ -1,6 +1,8 @@
 package sqlparser
 
 import (
+	"fmt"
+
 	"github.com/cube2222/octosql/zzverif"
 )
 
@@ -17,12 +19,30 @@ func verifEscAsym(s string) bool {
 	return in
 }
 
-// VerifC30StringLeaf: for every byte string s of <= L bytes, SQLVal{StrVal, s} printed by the real
+// verifStrAlphabet: one representative of every class the encoder and the lexer distinguish: the 9
+// bytes SQLEncodeMap escapes, the characters that mean something after a backslash in either table
+// ('n', '0', 'Z', 'b', 't', 'r'), a plain letter, and bytes >= 0x80.
+var verifStrAlphabet = []byte{0, '\'', '"', '\b', '\n', '\r', '\t', 26, '\\', 'n', '0', 'Z', 'b', 't', 'r', 'a', 0x80, 0xff}
+
+// verifNDLiteral: FULL=1: <= L arbitrary bytes (SQLEncodeMap[ch] forks over all 256 values of each
+// byte); FULL=0: <= L bytes drawn from verifStrAlphabet.
+func verifNDLiteral(name string, L, full int) string {
+	if full == 1 {
+		return zzverif.Bytes(name, L)
+	}
+	n := zzverif.Choice(name+".len", L+1)
+	b := make([]byte, n)
+	for i := range b {
+		b[i] = verifStrAlphabet[zzverif.Choice(fmt.Sprintf("%s.%d", name, i), len(verifStrAlphabet))]
+	}
+	return string(b)
+}
+
+// VerifC30StringLeaf: for every literal s (see verifNDLiteral), SQLVal{StrVal, s} printed by the real
 // formatter (SQLVal.Format -> sqltypes.Value.EncodeSQL -> SQLEncodeMap) and scanned by the real
-// Tokenizer is exactly one STRING token with the bytes of s followed by end of input.
+// Tokenizer is exactly one STRING token with the bytes of s, followed by end of input.
 func VerifC30StringLeaf() {
-	L := zzverif.Param("L")
-	s := zzverif.Bytes("s", L)
+	s := verifNDLiteral("s", zzverif.Param("L"), zzverif.Param("FULL"))
 	text := String(NewStrVal([]byte(s)))
 	tkn := NewStringTokenizer(text)
 	typ, val := tkn.Scan()
@@ -34,23 +54,62 @@ func VerifC30StringLeaf() {
 	zzverif.Assert(typ2 == 0, "then-eof")
 }
 
-func VerifC30Probe0() {
-	zzverif.Reach("x")
+// Identifier names are sequences of <= L units; a unit is an arbitrary ASCII byte (symbolic) or,
+// when MB=1, one of these multi-byte representatives (the UTF-8 decoder indexes a 256-entry table,
+// so symbolic non-ASCII bytes would only fork over all values).
+var verifIdentUnits = []string{
+	"é",         // 2-byte rune
+	"€",         // 3-byte rune
+	"\U00010041",     // 4-byte rune whose low 16 bits are 'A'
+	"\U00010031",     // 4-byte rune whose low 16 bits are '1'
+	"\U0001F600",     // 4-byte rune whose low 16 bits are no letter
+	"\xff",           // invalid UTF-8
+	"\xc3",           // truncated 2-byte sequence
 }
 
-func VerifC30Probe1() {
-	text := String(NewStrVal([]byte("ab")))
-	tkn := NewStringTokenizer(text)
-	typ, _ := tkn.Scan()
-	zzverif.Assert(typ == STRING, "x")
+const (
+	verifUnitASCII = iota
+	verifUnitValidBMP
+	verifUnitSuppLetter
+	verifUnitSuppOther
+	verifUnitInvalid
+)
+
+var verifIdentUnitKind = []int{verifUnitValidBMP, verifUnitValidBMP, verifUnitSuppLetter, verifUnitSuppLetter, verifUnitSuppOther, verifUnitInvalid, verifUnitInvalid}
+
+// verifNDName returns the name and, branch-free, whether it contains invalid UTF-8 / a rune above
+// U+FFFF whose uint16 truncation is a letter or digit.
+func verifNDName(name string, L, mb int) (s string, invalid, suppLetter bool) {
+	n := zzverif.Choice(name+".units", L) + 1
+	for i := 0; i < n; i++ {
+		k := 0
+		if mb == 1 {
+			k = zzverif.Choice(fmt.Sprintf("%s.kind%d", name, i), 1+len(verifIdentUnits))
+		}
+		if k == 0 {
+			b := zzverif.Byte(fmt.Sprintf("%s.%d", name, i))
+			zzverif.Assume(b < 0x80)
+			s += string([]byte{b})
+			continue
+		}
+		s += verifIdentUnits[k-1]
+		switch verifIdentUnitKind[k-1] {
+		case verifUnitInvalid:
+			// "\xc3" followed by a continuation byte would be valid; the next unit is ASCII or a
+			// lead byte, never a continuation byte, so the sequence stays invalid.
+			invalid = true
+		case verifUnitSuppLetter:
+			suppLetter = true
+		}
+	}
+	return s, invalid, suppLetter
 }
 
-// VerifC30IdentLeaf: for every non-empty name of <= L bytes, ColIdent{name} printed by the real
-// formatID and scanned by the real Tokenizer is exactly one ID token with the same bytes, then EOF.
+// VerifC30IdentLeaf: for every non-empty name, ColIdent / TableIdent printed by the real formatID
+// (keyword table, backtick doubling) and scanned by the real Tokenizer is exactly one ID token with
+// the same bytes, followed by end of input.
 func VerifC30IdentLeaf() {
-	L := zzverif.Param("L")
-	name := zzverif.Bytes("n", L)
-	zzverif.Assume(len(name) > 0)
+	name, invalid, suppLetter := verifNDName("n", zzverif.Param("L"), zzverif.Param("MB"))
 	var text string
 	if zzverif.Param("TABLE") == 1 {
 		text = String(NewTableIdent(name))
@@ -61,6 +120,9 @@ func VerifC30IdentLeaf() {
 	typ, val := tkn.Scan()
 	typ2, _ := tkn.Scan()
 	zzverif.Reach("scanned")
+	zzverif.Known("C30-ident-slash", zzverif.StrEq(name, "/"))
+	zzverif.Known("C30-ident-invalid-utf8", invalid)
+	zzverif.Known("C30-ident-rune-truncation", zzverif.And(suppLetter, zzverif.Not(invalid)))
 	zzverif.Assert(typ == ID, "one-id-token")
 	zzverif.Assert(zzverif.StrEq(string(val), name), "same-name")
 	zzverif.Assert(typ2 == 0, "then-eof")
